@@ -352,7 +352,7 @@ def suite_registry(ctx: Ctx) -> None:
     ctx.case("registry", {"map": sorted(rj["reg"])}, True)
     if sorted(inst["reg"]) != sorted(rj["reg"]) or sorted(inst["trs"]) != sorted(rj["trs"]) or inst["pa"] != rj["pa"]:
         ctx.disagree("registry", "Gen/Transformers vs fresh registry", rj, inst)
-    fws = {n: t for n, t in ((c.__name__, tname(c.expected_data_framework())) for c in F.FRAMEWORKS.values())}
+    fws = {n: t for n, t in ((c.__name__, tname(c.expected_data_framework())) for c in F.BASE_FRAMEWORKS.values())}
     if sorted(map(list, fws.items())) != sorted(inst["fws"]):
         ctx.disagree("registry", "compute frameworks", fws, inst["fws"])
     types = {tname(t): t for t in {a for (a, b) in reg.transformer_map} | {dict, pa.Table}}
@@ -378,7 +378,7 @@ def suite_registry(ctx: Ctx) -> None:
         if i != o:
             ctx.disagree("registry", {k: r[k] for k in r if k not in ("reg", "trs")}, i, o)
     # oracle: every ordered pair of distinct installed frameworks is connected (the property quantifies over all of them)
-    for a, b in itertools.permutations(sorted(fws.values()), 2):
+    for a, b in itertools.permutations(sorted(set(fws.values())), 2):
         if reg.get_transformation_chain(types[a], types[b]) is None:
             ctx.violation("registry", [a, b], f"no transformation path between installed frameworks {a} -> {b}")
 
